@@ -159,11 +159,82 @@ theorem mem_dedup (t : Bytes) (ts : List Bytes) : t ∈ dedup ts ↔ t ∈ ts :=
 theorem filterSize_pos (v : Variant) : 0 < v.filterSize := by
   cases v <;> decide
 
+theorem mem_insertPair (x a : Nat × Nat) (l : List (Nat × Nat)) : x ∈ insertPair a l ↔ x = a ∨ x ∈ l := by
+  induction l with
+  | nil => simp [insertPair]
+  | cons b bs ih =>
+    simp only [insertPair]
+    split
+    · simp
+    · simp only [List.mem_cons, ih]
+      constructor
+      · rintro (h | h | h) <;> simp [h]
+      · rintro (h | h | h) <;> simp [h]
+
+theorem mem_sortPairs (x : Nat × Nat) (l : List (Nat × Nat)) : x ∈ sortPairs l ↔ x ∈ l := by
+  induction l with
+  | nil => simp [sortPairs]
+  | cons a as ih => simp [sortPairs, mem_insertPair, ih]
+
+theorem length_insertPair (a : Nat × Nat) (l : List (Nat × Nat)) : (insertPair a l).length = l.length + 1 := by
+  induction l with
+  | nil => rfl
+  | cons b bs ih =>
+    simp only [insertPair]
+    split
+    · simp
+    · simp [ih]
+
+theorem length_sortPairs (l : List (Nat × Nat)) : (sortPairs l).length = l.length := by
+  induction l with
+  | nil => rfl
+  | cons a as ih => simp [sortPairs, length_insertPair, ih]
+
 /-- the hash of every token is among the hashes the filter is built from -/
 theorem hash_mem_weighted (hash : Bytes → Nat) (wt : Bytes → Nat → Nat) (tokens : List Bytes) (t : Bytes)
     (ht : t ∈ tokens) : hash t ∈ (computeTokenWeights hash wt tokens).map (·.1) := by
-  simp only [computeTokenWeights, List.mem_map, List.mem_mergeSort]
+  simp only [computeTokenWeights, List.mem_map, mem_sortPairs]
   exact ⟨(hash t, wt t (tokens.count t)), ⟨t, (mem_dedup t tokens).mpr ht, rfl⟩, rfl⟩
+
+theorem sum_map_le {α : Type} (l : List α) (f : α → Nat) (W : Nat) (h : ∀ p ∈ l, f p ≤ W) :
+    (l.map f).sum ≤ l.length * W := by
+  induction l with
+  | nil => simp
+  | cons a l ih =>
+    have h1 := h a (List.mem_cons_self)
+    have h2 := ih (fun p hp => h p (List.mem_cons_of_mem _ hp))
+    simp only [List.map_cons, List.sum_cons, List.length_cons, Nat.add_mul]
+    omega
+
+/-- two filters with a common set bit overlap -/
+theorem overlaps_of_testBit (a b : Bytes) (p : Nat) (ha : testBit a p = true) (hb : testBit b p = true) :
+    maybeOverlaps a b = true := by
+  have hk : p % 8 < 8 := Nat.mod_lt _ (by decide)
+  unfold testBit at ha hb
+  cases hxa : a[p / 8]? with
+  | none => simp [hxa] at ha
+  | some x =>
+    cases hxb : b[p / 8]? with
+    | none => simp [hxb] at hb
+    | some y =>
+      simp only [hxa, hxb] at ha hb
+      rw [byteTest_eq _ _ hk] at ha hb
+      unfold maybeOverlaps
+      rw [List.any_eq_true]
+      refine ⟨(x, y), List.mem_iff_getElem?.mpr ⟨p / 8, List.getElem?_zip_eq_some.mpr ⟨hxa, hxb⟩⟩, ?_⟩
+      simp only [bne_iff_ne, ne_eq]
+      intro hz
+      have : (x &&& y).toNat.testBit (p % 8) = true := by
+        rw [UInt8.toNat_and, Nat.testBit_and, ha, hb]; rfl
+      rw [hz] at this
+      simp at this
+
+theorem overlaps_of_common {a b : Bytes} {n h : Nat} (ha : a.length = n) (hb : b.length = n) (hn : 0 < n)
+    (hca : maybeContains a h = some true) (hcb : maybeContains b h = some true) : maybeOverlaps a b = true := by
+  have hn0 : ¬ n = 0 := by omega
+  simp only [maybeContains, ha, hb, hn0, if_false, Option.some.injEq, List.all_eq_true] at hca hcb
+  have hp : h % (n * 8) ∈ testPositions h (n * 8) := by simp [testPositions]
+  exact overlaps_of_testBit a b _ (hca _ hp) (hcb _ hp)
 
 /-! ### codec -/
 
@@ -440,5 +511,15 @@ theorem read_write_normal (t : Track) (pre post : Bytes) (L : Nat) (hr : t.InRan
   rw [ofInserts_nodup]
   · rfl
   · rw [normFrom_ids]; exact List.nodup_range'
+
+theorem padTake_eq_self_iff {α : Type} (n : Nat) (l : List α) (z : α) : padTake n l z = l ↔ l.length = n := by
+  constructor
+  · intro h; rw [← h]; exact padTake_length n l z
+  · intro h; simp [padTake, h, List.take_of_length_le (Nat.le_of_eq h)]
+
+theorem smallFilter_eq_self_iff (f : Bytes) : smallFilter f = f ↔ f.length = FS := by
+  constructor
+  · intro h; rw [← h, smallFilter_length, FS_eq]
+  · intro h; simp [smallFilter, h, List.take_of_length_le (Nat.le_of_eq h)]
 
 end Mv.Sketch
